@@ -634,8 +634,14 @@ protected:
 
     for (auto kv : e) {
       const variable_t &pivot = kv.second;
-      interval_t i = compute_residual(e, pivot) / interval_t(kv.first);
+      interval_t residual = compute_residual(e, pivot);
+      interval_t i = residual / interval_t(kv.first);
       if (auto k = i.singleton()) {
+        if (!(interval_t(*k * kv.first) == residual)) {
+          // the coefficient does not divide the residual: no value
+          // of pivot can falsify the disequation.
+          continue;
+        }
         if (!add_univar_disequation(pivot, *k)) {
           // set_to_bottom() was already called
           return;
